@@ -92,7 +92,7 @@ PLANS = {
              e=["c05_tables"], b=["b_surface"], canaries=["retype_case", "key_not_lowered"],
              explanation="E: every literal/regex terminal is case-insensitive, the ignore set is exactly COMMENT/CCOMMENT/WS/_NL with the documented patterns; P: keys lower-cased, outer quotes of either kind removed, the interactive re-typing rule is case-insensitive; that the contextual lexer yields the same tokens under every rendering is the bounded seam"),
  "C06": dict(level="proof", pred=by(PP + "separate_complex", PP + "is_complex_type", PP + "format_value", PP + "get_attribute_properties", PP + "__init__", PP + "_format", PP + "pprint",
-                                    PP + "process_attribute", PP + "_PrettyPrinter__format_line", "mappyfile.utils._pprint", "mappyfile.utils.dump", "mappyfile.utils.save", "lemma:LemmaSeparatorNonEmpty"),
+                                    PP + "process_attribute", PP + "_PrettyPrinter__format_line", PP + "compute_max_key_length", PP + "compute_aligned_max_indent", PP + "process_dict", "mappyfile.utils._pprint", "mappyfile.utils.dump", "mappyfile.utils.save", "lemma:LemmaSeparatorNonEmpty"),
              b=["b_options"], canaries=["stable_partition", "newline"],
              explanation="content lines have the shape ws ++ KEY ++ pad(>=1 blank) ++ V where V reads no formatting option but the quote (read-set obligation on format_value); separate_complex is a stable partition (shapes 0..3 + pair-projection argument); every option is passed under its own name; the reader side is the bounded seam over the option product"),
  "C07": dict(level="proof", pred=by("mappyfile.validator.Validator.convert_lowercase", "mappyfile.validator.Validator._get_errors", "mappyfile.validator.Validator.get_error_messages",
@@ -100,7 +100,7 @@ PLANS = {
              b=["b_validate"], canaries=["lowercase_keys", "message_key", "type_dropped"],
              explanation="the repository's plumbing around jsonschema is proved (lower-cased copy, one message per error in order, message names keyword/object, total, root-type schema, list = per-root); 'conforms to the schema' itself is jsonschema's verdict (assumed, validated by fault injection)"),
  "C08": dict(level="proof", pred=by(TR + "create_position_dict", TR + "flatten", TR + "attr", TR + "composite", TR + "process_value_pairs", TR + "config", TR + "int", TR + "float", TR + "string",
-                                    "mappyfile.validator.Validator.create_message", "mappyfile.cli.validate"),
+                                    "mappyfile.validator.Validator.create_message", "mappyfile.cli.validate", "mappyfile.parser.Parser.load_includes", "mappyfile.parser.Parser.parse"),
              b=["b_positions"], canaries=["position_line", "message_key"],
              explanation="position records are built from the tokens' line/column (never rewritten by value callbacks), hoisted per keyword / per occurrence; error messages carry the position of the keyword or of the object's opener; Lark's line/column assumed, validated by the bounded seam"),
  "C09": dict(level="proof", pred=by("is_valid_for_version", "get_versioned_properties", "get_versioned_schema", "get_expanded_schema", "mappyfile.validator.Validator.validate", "mappyfile.cli.schema"),
